@@ -1,0 +1,20 @@
+"""
+Verification taps. Inert unless the environment variable SQLLINEAGE_VERIF=1 is set at import time
+AND a handler is installed with set_tap(); otherwise tap() returns immediately and changes nothing.
+"""
+
+import os
+from typing import Any, Callable, Optional
+
+ENABLED = os.environ.get("SQLLINEAGE_VERIF") == "1"
+_handler: Optional[Callable[[str, dict[str, Any]], None]] = None
+
+
+def set_tap(handler: Optional[Callable[[str, dict[str, Any]], None]]) -> None:
+    global _handler
+    _handler = handler if ENABLED else None
+
+
+def tap(event: str, **payload: Any) -> None:
+    if _handler is not None:
+        _handler(event, payload)
